@@ -194,7 +194,9 @@ class Check:
             lines.append(f"KNOWN-FINDING: property={self.prop} {k['unit']} {k['obligation'].split('/', 1)[-1]} -- {k['what']}")
         for v in final_viol:
             tail = "" if v.get("concrete") else " no-failing-input-found"
-            lines.append(f"VIOLATION property={self.prop} replay={v['replay']}{tail}")
+            ln = f"VIOLATION property={self.prop} replay={v['replay']}{tail}"
+            if ln not in lines:
+                lines.append(ln)
         wall = time.time() - t0
         status = 0
         if crashes:
